@@ -1009,9 +1009,12 @@ class Engine:
                 if g is False:
                     break
                 if g is not True:
-                    can, _cannot = self.decide(st, g)
-                    if not can:
-                        break      # the path condition already decides this operand: short-circuit
+                    if not st.spec_mode:
+                        # (code only: in a specification every operand is total, and a solver call
+                        # per connective would dominate the generation time)
+                        can, _cannot = self.decide(st, g)
+                        if not can:
+                            break      # the path condition already decides this operand: short-circuit
                     st.guards.append(g)
                     pushed += 1
         finally:
